@@ -61,6 +61,7 @@ type simInline struct {
 }
 
 type simHistOpts struct {
+	Existing     bool // the system already holds a log (e.g. a clone of the large pre-built base)
 	Dedup        bool // track the deduplication oracle (expected source of every answer, identical acknowledgements)
 	Universe     int  // >0: entries are drawn from a small universe with near-collisions instead of fresh ids
 	CacheActions bool // between rounds: delete / roll back / legacy-table / recompute-tool actions on the cache
@@ -353,8 +354,10 @@ func simShortErr(err error) string {
 // run executes a generated history. It returns an error describing a property violation.
 func (h *simHist) run(t *rapid.T) error {
 	s := h.s
-	if _, err := s.create(nil); err != nil {
-		return fmt.Errorf("CreateLog failed on empty stores: %v", err)
+	if !h.opts.Existing {
+		if _, err := s.create(nil); err != nil {
+			return fmt.Errorf("CreateLog failed on empty stores: %v", err)
+		}
 	}
 	in, err := s.load(nil)
 	if err != nil {
